@@ -130,6 +130,11 @@ func main() {
 		{Mpt: 2, Max: 400, G2: 3, Width: 3, Floor: 4},
 		{Mpt: 3, Max: 1000, G2: 5, Width: 4, Floor: 2},
 		{Mpt: 10, Max: 5000000, G2: 3, Width: 10, Floor: 2000},
+		// a floor at or above half the maximum (and above it): "keep a single segment" policies
+		{Mpt: 2, Max: 40, G2: 4, Width: 3, Floor: 20},
+		{Mpt: 3, Max: 100, G2: 4, Width: 4, Floor: 120},
+		// batches well above the floor (the budget's first tier is the smallest segment, not the floor)
+		{Mpt: 4, Max: 100000, G2: 4, Width: 4, Floor: 2},
 	}
 	// (i) contract: exhaustive small lists over a boundary size set
 	for _, o := range optsList[1:4] {
